@@ -42,6 +42,13 @@ PROPS = {
                      'symlink targets are generated in the form a Rock Ridge SL record can represent (single slashes, no trailing slash)',
                      'the independent walker judges the primary tree only; oddities of the Joliet tree are reported as diagnostics'],
     ),
+    'C07': dict(
+        level='exploration',
+        quick=dict(runs=[run('TestC07', 60, timeout=400, shrinktime='30s')]),
+        thorough=dict(runs=[run('TestC07', 1500, timeout=3000, shrinktime='120s')]),
+        assumptions=['the writer is judged through the library reader, a metamorphic relation across option sets / block sizes / cache sizes, and an independent superblock parse; a writer/reader pair wrong in the same way under every option would pass',
+                     'an absent table pointer written as 0 instead of all ones, and the ineffective NoPad option, are diagnostics (the statement speaks of size fields)'],
+    ),
     'C08': dict(
         level='exploration',
         quick=dict(runs=[run('TestC08', 30, timeout=400, shrinktime='45s')]),
